@@ -336,6 +336,50 @@ func (r *rwRT) ruleTmpDir() {
 					}
 				}
 			}
+			// which directory each stage loads, and what else is removed
+			var loads []string
+			strayRemoval := ""
+			noteRemoval := func(args []AV) {
+				if len(args) > 0 {
+					if a, ok := asString(args[0]); ok && a != entry.tmp {
+						strayRemoval = a
+					}
+				}
+			}
+			for _, e := range g.o.St.Events {
+				if e.Fn == nil {
+					continue
+				}
+				if e.Kind == "call" && e.Fn.Name() == "MustNew" && len(e.Args) > 0 {
+					d, _ := asString(e.Args[0])
+					loads = append(loads, d)
+				}
+				if (e.Kind == "call" || e.Kind == "defer") && (e.Fn.Name() == "RemoveAll" || e.Fn.Name() == "Remove") {
+					noteRemoval(e.Args)
+				}
+				if e.Kind == "defer" {
+					if _, isClo := e.Callee.(Closure); isClo {
+						for _, o2 := range g.in.Apply(g.o.St, e.Callee, e.Args) {
+							for _, e2 := range o2.St.Events[len(g.o.St.Events):] {
+								if e2.Kind == "call" && e2.Fn != nil && (e2.Fn.Name() == "RemoveAll" || e2.Fn.Name() == "Remove") {
+									noteRemoval(e2.Args)
+								}
+							}
+						}
+					}
+				}
+			}
+			if !testMode {
+				src := ""
+				if s0, ok := asString(entry.args[0]); ok {
+					src = s0
+				}
+				c.check(len(loads) == 2 && loads[0] == src && loads[1] == entry.tmp, "DET.TMP", construct+": the stages load the source and the intermediate directory", pos,
+					"first stage loads "+src+", second stage loads "+entry.tmp,
+					fmt.Sprintf("the two stages load %q (expected the source directory, then the intermediate one)", loads))
+				c.check(strayRemoval == "", "DET.TMP", construct+": nothing but the intermediate directory is removed", pos,
+					"the only directory removed is "+entry.tmp, "the run removes "+strayRemoval+" (sources or output)")
+			}
 			fresh := idx["rm"] >= 0 && idx["mk"] > idx["rm"] && idx["load"] > idx["mk"]
 			c.check(fresh, "DET.TMP", construct+": intermediate directory starts empty", pos,
 				"the intermediate directory is removed and re-created before anything is loaded or written: leftovers of earlier runs cannot reach the output",
